@@ -6,6 +6,7 @@ import (
 	"encoding/json"
 	"fmt"
 	"hash/fnv"
+	"strings"
 	"sync"
 	"sync/atomic"
 
@@ -512,7 +513,7 @@ func init() {
 func c01ByteCase(w *sup.W, seed, what string, ser []byte) {
 	env, derr := wire.DecodeEnvelope(ser)
 	for _, root := range []int{1, 2, 0} {
-		acc, _ := libAccepts(ser, rootPub(root))
+		acc, why := libAccepts(ser, rootPub(root))
 		valid := false
 		if derr == nil {
 			valid, _ = wire.Valid(env, rootPub(root))
@@ -527,7 +528,8 @@ func c01ByteCase(w *sup.W, seed, what string, ser []byte) {
 		case valid:
 			w.Class("decoders-disagree-on-well-formedness")
 		default:
-			w.Class("rejected")
+			// which stage refuses: the decoder, or signature verification
+			w.Class("rejected-by-" + strings.SplitN(why, ":", 2)[0])
 		}
 	}
 }
